@@ -263,6 +263,8 @@ func c16CheckDecode(r *vhlib.Run, data []byte, bucket string) {
 
 func runC16(r *vhlib.Run) {
 	rng := r.Rng
+	// meta.Reader itself against its implementation-level model, per call (Meta/ReaderImpl.v)
+	runWMETAR(r)
 	modes := []meta.FinalMode{meta.FinalNil, meta.FinalMeta, meta.FinalStream}
 	enc := func(p []byte, m meta.FinalMode, parts [][]byte, bucket string) {
 		r.Eval(bucket, true, p, []byte{byte(m)})
